@@ -323,6 +323,12 @@ impl Interp {
         Outcome { status, log: std::mem::take(&mut self.log), uncertain: self.uncertain.clone(), steps: (self.fuel_start - self.fuel.max(0)) as u64 }
     }
 
+    /// run a chunk and hand back the raw values (used to build preset globals)
+    pub fn run_chunk_values(&mut self, block: &Block) -> Option<Vec<Value>> {
+        let scope = Scope::new(None);
+        self.exec_function_body(block, &scope, &[]).ok()
+    }
+
     fn exec_function_body(&mut self, block: &Block, scope: &Rc<Scope>, varargs: &[Value]) -> R<Vec<Value>> {
         match self.exec_block(block, scope, varargs)? {
             Flow::Return(v) => Ok(v),
@@ -1751,6 +1757,10 @@ impl Interp {
                     let a = args[ai].clone();
                     ai += 1;
                     match conv {
+                        b'*' if self.dialect == Dialect::Luau => {
+                            let s = self.tostring(&a)?;
+                            out.extend_from_slice(&s);
+                        }
                         b's' => {
                             let s = self.tostring(&a)?;
                             match prec {
